@@ -14,6 +14,7 @@ import OFV.Proofs.C19LambdaOracle
 import OFV.Proofs.C19MolId
 import OFV.Proofs.C19MolOracle
 import OFV.Proofs.C19Phys
+import OFV.Proofs.C19Exchange
 import OFV.Proofs.C19Mono
 
 namespace OFV.C19
@@ -294,6 +295,22 @@ theorem one_norm_spec_partial (tol : Rat) (n : Nat) (const : Rat) (h : List (Lis
       (flatReal (2 * n) (spinCoulomb n g)) = true) :
     jwOneNorm (2 * n) (molOp n const h g) false = some (oneNormWoConst h g) :=
   OFV.C19Jw.oneNormWoConst_eq_oracle tol n const h g hn hsupp symH symJ hok
+
+/-- **`one_norm_spec`, exchange class — the four-distinct-index step (partial).**  With the eight-fold symmetry an
+exchange integral `K = g_pqpq = g_ppqq` (`p ≠ q`) contributes, besides density-density terms, the opposite-spin operator
+`K (a†_{p↑} a†_{q↓} a_{p↓} a_{q↑} + a†_{p↑} a†_{p↓} a_{q↓} a_{q↑} + h.c.)` (spin flip + pair hopping) on the four spin
+orbitals `a = 2p, a + 1, c = 2q, c + 1`.  For every such pair and every real `K`: this operator acts on every Fock state
+like `K/4 (X Y Y X − X X Y Y − Y Y X X + Y X X Y)` on these four qubits (the other four `X/Y` words of
+`jordan_wigner_two_body` cancel between the two terms), and the Spec oracle `jwOneNorm` of it is `|K|`.
+MISSING for the exchange class of `one_norm_spec`: adding these words for all orbital pairs to the image of the
+density-density part (same-spin exchange changes `V` to `½ (J − K)`), showing the keys stay pairwise different, and
+reducing `get_one_norm_int_woconst` with exchange entries to the same normal form; general three-index integrals
+additionally need the `X Z…Z X` strings with an extra / missing `Z`. -/
+theorem one_norm_exchange_pair_partial (a c : Nat) (h : a + 1 < c) (K : Rat) :
+    (∀ m u : Nat, Spec.GV.coeff (Spec.applyOp .qubit (OFV.C19P.exchangePauli a c K) [m]) [u]
+        = Spec.GV.coeff (Spec.applyOp .fermion (OFV.C19P.exchangeFermi a c K) [m]) [u])
+    ∧ jwOneNorm (c + 2) (OFV.C19P.exchangeFermi a c K) false = some (Spec.C19.rabs K) :=
+  ⟨fun m u => OFV.C19P.exchange_pair_den a c h K m u, OFV.C19P.exchange_pair_norm a c h K⟩
 
 /-- `lambda_norm_spec` in the form the driver evaluates (`c19.spec.dch_pauli_norm`): the matrices are flattened by
 `Spec.C19.flatReal`, the threshold is the extracted `EQ_TOLERANCE`; the driver reports `jwDCHOk` and the 1-norm
